@@ -209,6 +209,15 @@ def extra_paths():
     out.append(("static-late", st + [{"a": "Tick", "d": 601}, dict(L), dict(P), Q], mut_static_pool))
     out.append(("static-vanish", st + [{"a": "ReplVanish", "cmd": "A", "i": 0}, dict(P), Q], mut_static_pool))
     out.append(("static-stall", st + [{"a": "ReplLaunch", "cmd": "A", "i": 0}, {"a": "Tick", "d": 601}, dict(P), Q], mut_static_pool))
+    # a left-over taint on another node: the stale cleanup has work to do while a command is in flight / a pass runs
+    def mut_stale(pools, nodes, pods):
+        for n in nodes:
+            if n["name"] == "n2":
+                n["tainted"] = True
+    one = [{"a": "BuildCmd", "cmd": "A", "nodes": ["n1"], "nrepl": 1}, {"a": "StartCmd", "cmd": "A"}]
+    out.append(("stale-taint-pass-cleanup", one + [{"a": "ReplInit", "cmd": "A", "i": 0}, dict(P), {"a": "Cleanup"}, Q], mut_stale))
+    out.append(("stale-taint-cleanup-pass", one + [{"a": "ReplInit", "cmd": "A", "i": 0}, {"a": "Cleanup"}, dict(P), Q], mut_stale))
+    out.append(("stale-taint-waiting", one + [dict(P), {"a": "Cleanup"}, Q, {"a": "ReplVanish", "cmd": "A", "i": 0}, dict(P), {"a": "Cleanup"}, Q], mut_stale))
     # the provider has no capacity: the real lifecycle controller deletes the replacement
     two = [{"a": "BuildCmd", "cmd": "A", "nodes": ["n1", "n2"], "nrepl": 2}, {"a": "StartCmd", "cmd": "A"}, dict(P)]
     out.append(("c2-r2-init-ice", two + [dict(L), dict(P), {"a": "ReplVanish", "cmd": "A", "i": 1, "via": "lifecycle"}, dict(P), Q], None))
@@ -392,6 +401,23 @@ def variants(name, steps, calls_per_step, rng, tier):
                 st2[i]["cut"] = dict(c, when=when)
                 st2.insert(i + 1, {"a": "Restart"})
                 out.append(("%s|s%d:%s:crash-%s" % (name, pos, tag, when), st2))
+    # (iv) overlapping invocations: the next controller step runs entirely between two calls of this one (a queue pass of
+    # one command while another command starts, the stale cleanup while a pass runs, two passes ...)
+    for pos, (i, (kind, calls)) in enumerate(zip(idx, calls_per_step)):
+        j = i + 1
+        if j >= len(steps) or steps[j]["a"] not in STEP_KINDS:
+            continue
+        a, b = steps[i], steps[j]
+        if a["a"] == "StartCmd" and b["a"] == "StartCmd":
+            continue          # both run in the disruption controller's goroutine
+        if a.get("cmd") and a.get("cmd") == b.get("cmd") and "StartCmd" in (a["a"], b["a"]):
+            continue          # a command is enqueued by the last step of its StartCommand: its pass cannot overlap it
+        for c in calls:
+            tag = "%s.%s.%s%s#%d" % (c["verb"], c["kind"], c["name"] or "*", "/" + c["sub"] if c["sub"] else "", c["nth"])
+            st2 = copy.deepcopy(steps)
+            inner = st2.pop(j)
+            st2[i]["at"] = [dict(c, steps=[inner])]
+            out.append(("%s|s%d:%s:overlap-%s" % (name, pos, tag, inner["a"]), st2))
     for i in range(1, len(steps)):   # a restart between any two steps
         if steps[i]["a"] == "Quiescent" and i == len(steps) - 1 and steps[i - 1]["a"] == "Restart":
             continue
